@@ -168,8 +168,15 @@ func (g *PG) Expr(t Ty, d int) *canon.Node {
 		// a local shadows the name of a builtin or library function: the innermost binding wins wherever the name is used
 		g.stat("shadow-builtin-name")
 		nm := Pick(r, []string{"not", "list", "count", "inc", "first", "identity"})
+		if r.Intn(3) == 0 {
+			// ... or the name of a library macro: a local function of that name is called like any other function
+			// (operands evaluated once, left to right), it is not expanded (seeded C01-m15)
+			nm = Pick(r, []string{"or", "and", "cond", "->", "->>"})
+			g.stat("shadow-macro-name")
+		}
 		repl := Pick(r, []*canon.Node{li(sy("fn"), li(sy("&"), sy("zs")), canon.Ke("shadowed")), li(sy("fn"), li(sy("z")), call("trace!", canon.Ke("shadowed-called"))), sy("vector")})
-		use := Pick(r, []*canon.Node{li(sy("if"), li(sy(nm), canon.Bo(false)), canon.Ke("then"), canon.Ke("else")), li(sy(nm), canon.In(1)), li(sy("list"), li(sy(nm), canon.N()), li(sy(nm), canon.In(2)))})
+		use := Pick(r, []*canon.Node{li(sy("if"), li(sy(nm), canon.Bo(false)), canon.Ke("then"), canon.Ke("else")), li(sy(nm), canon.In(1)), li(sy("list"), li(sy(nm), canon.N()), li(sy(nm), canon.In(2))),
+			li(sy(nm), g.tr(canon.In(1)), g.tr(canon.In(2)))})
 		if r.Intn(2) == 0 {
 			return li(sy("do"), g.tr(li(sy("let"), li(sy(nm), repl), use)), g.Expr(t, d+1))
 		}
@@ -634,8 +641,18 @@ func (g *PG) genTry(t Ty, d int) *canon.Node {
 	if hasCatch {
 		g.stat("catch")
 		h := []*canon.Node{sy("catch"), sy(cv)}
-		h = append(h, g.mark())
-		switch r.Intn(7) {
+		if r.Intn(3) != 0 {
+			h = append(h, g.mark())
+		} else {
+			g.stat("handler-of-one-form") // the handler's value is that of its only form, evaluated like any other
+		}
+		switch r.Intn(9) {
+		case 7:
+			h = append(h, canon.Ve(canon.Ke("err"), sy(cv), g.Expr(TInt, d+1))) // a vector literal: its elements are evaluated
+			g.stat("handler-is-a-collection-literal")
+		case 8:
+			h = append(h, canon.Ma(map[string]*canon.Node{canon.Marker + "err": sy(cv), canon.Marker + "n": g.Expr(TInt, d+1)}))
+			g.stat("handler-is-a-collection-literal")
 		case 0, 1:
 			h = append(h, sy(cv)) // returns the caught value itself (double-evaluation detector)
 			g.stat("handler-returns-caught")
